@@ -25,6 +25,7 @@ use ckb_types::{
     prelude::*,
     utilities::calc_filter_hash,
 };
+use ckb_util::Mutex;
 use std::sync::Arc;
 
 /// A Transaction DB
@@ -32,6 +33,8 @@ pub struct StoreTransaction {
     pub(crate) inner: RocksDBTransaction,
     pub(crate) freezer: Option<Freezer>,
     pub(crate) cache: Arc<StoreCache>,
+    /// The blocks deleted in this transaction, their cached entries are evicted on commit
+    pub(crate) deleted_blocks: Mutex<Vec<Byte32>>,
 }
 
 impl ChainStore for StoreTransaction {
@@ -140,7 +143,13 @@ impl StoreTransaction {
 
     /// Commits the transaction, writing all changes to the database.
     pub fn commit(&self) -> Result<(), Error> {
-        self.inner.commit()
+        self.inner.commit()?;
+        // A reader may have refilled the cache from the columns between `delete_block` and the
+        // commit, so the deleted blocks are evicted once more when the deletion is visible.
+        for hash in self.deleted_blocks.lock().drain(..) {
+            self.cache.evict_block(&hash);
+        }
+        Ok(())
     }
 
     /// Returns a snapshot of the transaction's current state.
@@ -234,6 +243,11 @@ impl StoreTransaction {
                 .build();
             self.delete(COLUMN_BLOCK_BODY, key.as_slice())?;
         }
+        // The store cache is shared with every reader and is not transactional: without the
+        // eviction `get_block_header` / `block_exists` / `get_block` keep answering for the
+        // deleted block (the latter with an empty body).
+        self.cache.evict_block(&hash);
+        self.deleted_blocks.lock().push(hash);
         Ok(())
     }
 
